@@ -30,16 +30,48 @@ Proof.
   destruct (rmove_eqb k k'); [intros E; inversion E; left; reflexivity|intros E; right; apply IH; exact E].
 Qed.
 
+(* ---- two facts about the rules model that the generator relies on ---- *)
+(* AllMoves never generates the Pass move *)
+Lemma all_moves_types p m : In m (all_moves p) -> (2 <= mT m <= 8)%N.
+Proof.
+  unfold all_moves. intros H.
+  apply in_flat_map in H. destruct H as (x & _ & H).
+  apply in_flat_map in H. destruct H as (y & _ & H).
+  repeat match type of H with
+  | In _ (if ?c then _ else _) => destruct c
+  | In _ (_ :: _) => destruct H as [<-|H]; [cbn; lia|]
+  | In _ [] => destruct H
+  end.
+  apply in_flat_map in H. destruct H as ([t dc] & Ht & H).
+  apply in_flat_map in H. destruct H as (sl & _ & H).
+  destruct (N.land sl _ =? 0)%N; [|destruct H]. destruct H as [<-|[]]. cbn [mT fst].
+  cbn in Ht. destruct Ht as [E|[E|[E|[E|[]]]]]; inversion E; subst; lia.
+Qed.
+
+Lemma all_moves_okm p m : In m (all_moves p) -> okm m.
+Proof. intros H. apply all_moves_types in H. unfold okm. lia. Qed.
+
+Lemma move_equal_try basis p a b : move_equal a b = true -> try_move basis p a = try_move basis p b.
+Proof.
+  unfold move_equal. intros H. destruct a as [ax ay at_ as_], b as [bx by_ bt bs]. cbn [mX mY mT mS] in H.
+  apply andb_true_iff in H. destruct H as [H HS]. apply andb_true_iff in H. destruct H as [H HT].
+  apply andb_true_iff in H. destruct H as [HX HY]. apply Z.eqb_eq in HX. apply Z.eqb_eq in HY. apply N.eqb_eq in HT. subst.
+  destruct (5 <=? bt)%N eqn:E5; [apply N.eqb_eq in HS; subst; reflexivity|].
+  apply N.leb_gt in E5.
+  unfold try_move, mvp, move_prealloc. cbn [mX mY mT mS].
+  destruct bt as [|[[[|[]|]|[[]|[]|]|]|[[]|[]|]|]]; try lia; try reflexivity.
+Qed.
+
 Section Gen.
 Variable pinned : bool.
 Variable basis : list N.
 Variable cfg : config.
 Variable p : position.
 
-(* facts about the rules engine at p (C01 / C03 territory), assumed here *)
-Hypothesis Heq : forall a b, move_equal a b = true -> try_move basis p a = try_move basis p b.
+(* facts about the rules engine at p (C03 territory), assumed here: an accepted move is (up to Move.Equal) a generated one; a bound on AllMoves *)
 Hypothesis Hhint : forall m q, okm m -> try_move basis p m = Some q -> In q (children basis p).
-Hypothesis Hnp : forall m, In m (all_moves p) -> okm m.
+Let Heq a b := move_equal_try basis p a b.
+Let Hnp m := all_moves_okm p m.
 Hypothesis Hlen : Z.of_nat (length (all_moves p)) <= 690.
 
 Let len := Z.of_nat (length (all_moves p)).
@@ -71,7 +103,7 @@ Record GI (seen : list position) (g : mgen) : Prop := {
 
 Lemma GI_new s pv ply depth : Forall okm pv -> GI [] (new_gen s None pv ply depth p).
 Proof.
-  intros Hpv. constructor; cbn [new_gen g_p g_te g_tec g_pv g_i g_r g_ms option_map]; try reflexivity; try assumption; try lia.
+  clear Hhint Hlen. intros Hpv. constructor; cbn [new_gen g_p g_te g_tec g_pv g_i g_r g_ms option_map]; try reflexivity; try assumption; try lia.
   - unfold okm, move0; cbn. discriminate.
 Qed.
 
